@@ -66,6 +66,8 @@ def _relations(c: Chooser, classes: Dict[int, str], n: int, direct_p=0.12) -> Li
 
 def generate(rng, cfg: Dict) -> Dict:
     c = Chooser(rng)
+    if c.chance(0.4):
+        return generate_liveness(c, rng)
     n_suffix = c.int(2, 5)
     s_creates, s_classes = _population(c, 100, n_suffix)
     s_rel = _relations(c, s_classes, c.int(1, 6))
@@ -156,6 +158,165 @@ def generate(rng, cfg: Dict) -> Dict:
                 prefix.append(["drop", h])
             prefix += [["gc"], ["sweep"]]
     return {"property": "C14", "machine": "lifecycle_sim", "salt": c.int(0, 1 << 30), "prefix_shape": shape, "prefix": prefix, "suffix": suffix}
+
+
+def generate_liveness(c: Chooser, rng) -> Dict:
+    """
+    One op list in which survivors keep being related after other instances died: the reference variant runs the
+    same ops but nothing ever dies (every dropped instance is kept alive behind the program's back).
+    """
+    ops: List[list] = []
+    classes: Dict[int, str] = {}
+    nxt = 0
+    for _ in range(c.int(8, 35)):
+        r = rng.random()
+        if (r < 0.28 or len(classes) < 2) and len(classes) < 9:
+            humans = [k for k, v in classes.items() if v == "Human"]
+            cls = c.weighted([("Org", 5), ("Human", 4), ("Boss", 2 if humans else 0)])
+            ops.append(["create", nxt, "Boss", nxt, c.pick(humans)] if cls == "Boss" else ["create", nxt, cls, nxt])
+            classes[nxt] = cls
+            nxt += 1
+        elif r < 0.55:
+            ops += _relations(c, classes, 1, direct_p=0.08)
+        elif r < 0.67:
+            h = c.pick(list(classes))
+            fields = [f for (dc, f, rc) in RELATABLE if dc == classes[h]]
+            ops.append(["unassign", h, c.pick(fields)])
+        elif r < 0.80:
+            h = c.pick(list(classes))
+            ops.append(["drop", h])
+            del classes[h]
+        elif r < 0.88:
+            ops.append(["gc"])
+        elif r < 0.96:
+            ops.append(["sweep"])
+        elif len(classes) >= 2:
+            a, b = c.sample(list(classes), 2)
+            ops.append(["tie", a, b])
+    # end with a few assertions among the survivors and newcomers, after a collection
+    ops += [["gc"], ["sweep"]] if c.chance(0.7) else []
+    for _ in range(c.int(1, 3)):
+        humans = [k for k, v in classes.items() if v == "Human"]
+        cls = c.weighted([("Org", 5), ("Human", 4), ("Boss", 2 if humans else 0)])
+        ops.append(["create", nxt, "Boss", nxt, c.pick(humans)] if cls == "Boss" else ["create", nxt, cls, nxt])
+        classes[nxt] = cls
+        nxt += 1
+    ops += _relations(c, classes, c.int(1, 4), direct_p=0.05)
+    return {"property": "C14", "machine": "lifecycle_sim", "mode": "liveness", "salt": c.int(0, 1 << 30), "prefix": [], "suffix": [], "ops": ops}
+
+
+def run_liveness(arg) -> Dict:
+    scenario, immortal = arg
+    import weakref as _weakref
+
+    log, counters = kernel.EventLog(), kernel.Counters()
+    world = World(scenario.get("salt", 0), log, counters)
+    keep = []
+    errors = []
+    indices, ids = {}, {}
+    for i, op in enumerate(scenario["ops"]):
+        kind = op[0]
+        try:
+            if kind == "create":
+                obj = world.create(op[1], op[2], op[3], op[4] if len(op) > 4 else None)
+                if obj is not None:
+                    w = SymbolGraph().get_wrapped_instance(obj)
+                    indices[op[3]] = None if w is None else w.index
+                    ids[op[3]] = id(obj)
+                del obj
+            elif kind == "relate":
+                world.relate(op[1], op[2], op[3], op[4])
+            elif kind == "unassign":
+                obj = world.handles.get(op[1])
+                if obj is not None and (type(obj).__name__, op[2]) in FIELD_KIND:
+                    k = FIELD_KIND[(type(obj).__name__, op[2])]
+                    setattr(obj, op[2], None if k == "single" else ([] if k == "list" else set()))
+                    counters.inc("op.unassign")
+                del obj
+            elif kind == "drop":
+                if immortal and op[1] in world.handles:
+                    keep.append(world.handles[op[1]])
+                world.drop(op[1])
+            elif kind == "tie":
+                world.tie(op[1], op[2])
+            elif kind == "gc":
+                world.gc()
+            elif kind == "sweep":
+                world.sweep()
+            elif kind == "query":
+                cls = oworld.ONTOLOGY_CLASSES.get(op[1])
+                if cls is not None:
+                    list(an(entity(let(cls, None))).evaluate())
+        except Exception as e:
+            errors.append([i, type(e).__name__, kind])
+    world.gc()
+    alive = sorted(rec["serial"] for rec in world.census if rec["ref"]() is not None)
+    fields = {}
+    for rec in world.census:
+        obj = rec["ref"]()
+        if obj is not None:
+            fields[str(rec["serial"])] = norm_fields(obj)
+        del obj
+    reused_index = len(set(v for v in indices.values() if v is not None)) < len([v for v in indices.values() if v is not None])
+    reused_id = len(set(ids.values())) < len(ids)
+    return {"alive": alive, "relations": sorted([list(r) for r in graph_relations()], key=kernel.canonical), "fields": fields, "errors": errors,
+            "probes": {"node_index_reused": int(reused_index), "object_id_reused": int(reused_id)}, "counters": dict(counters)}
+
+
+def execute_liveness(scenario: Dict) -> Dict:
+    log, counters = kernel.EventLog(), kernel.Counters()
+    verdicts: List[Dict] = []
+    a = procs.in_child(run_liveness, (scenario, True), wall_cap=10)
+    if "harness_error" in a or a.get("timeout"):
+        raise RuntimeError(f"reference variant failed: {a}")
+    b = run_liveness((scenario, False))
+    for k, v in b["counters"].items():
+        counters.inc(k, v)
+    for k, v in b["probes"].items():
+        if v:
+            counters.inc("probe." + k, v)
+    live = set(b["alive"])
+    ra = {kernel.canonical(r) for r in a["relations"] if r[0] in live and r[2] in live}
+    rb = {kernel.canonical(r) for r in b["relations"] if r[0] in live and r[2] in live}
+    dangling = [r for r in b["relations"] if (r[0] in live) != (r[2] in live) and "dead" not in (r[0], r[2])]
+    feats = dict(index_reused=bool(b["probes"]["node_index_reused"]), id_reused=bool(b["probes"]["object_id_reused"]), mode="liveness")
+    log.add("A", sorted(ra), a["errors"])
+    log.add("B", sorted(rb), b["errors"], b["alive"])
+    raised = [e for e in a["errors"] + b["errors"] if e[2] in ("relate", "unassign")]
+    if raised:
+        verdicts.append(kernel.verdict("C14.assert-raises", f"an assertion between live instances raised {raised[0][1]} (op #{raised[0][0]})", exception=raised[0][1], **feats))
+    elif a["errors"] != b["errors"]:
+        verdicts.append(kernel.verdict("C14.exception", f"ops raise differently when instances die: {b['errors']} vs when nothing dies: {a['errors']}", **feats))
+    missing, extra = sorted(ra - rb), sorted(rb - ra)
+    if missing:
+        verdicts.append(kernel.verdict("C14.relation-missing", f"relations among surviving instances that exist when nothing ever dies but not with the real lifetimes: {missing[:4]}", field=_field_of(missing[0]), **feats))
+    if extra:
+        verdicts.append(kernel.verdict("C14.relation-extra", f"relations among surviving instances recorded only because other instances died: {extra[:4]}", field=_field_of(extra[0]), **feats))
+    def only_live(fields):
+        # what inference adds to a survivor's field because an instance that is dead in reality is still
+        # alive in the reference variant is not part of the comparison
+        out = {}
+        for name, value in fields.items():
+            if isinstance(value, list):
+                out[name] = [x for x in value if x in live]
+            else:
+                out[name] = value if (value is None or value in live) else None
+        return out
+
+    fa = {s: only_live(f) for s, f in a["fields"].items() if int(s) in live}
+    fb = {s: only_live(f) for s, f in b["fields"].items()}
+    b = dict(b, fields=fb)
+    if fa != b["fields"]:
+        diffs = [(s, f, fa.get(s, {}).get(f), b["fields"][s].get(f)) for s in b["fields"] for f in b["fields"][s] if fa.get(s, {}).get(f) != b["fields"][s].get(f)]
+        verdicts.append(kernel.verdict("C14.field-differs", f"managed fields of survivors differ (serial, field, nothing dies, real lifetimes): {diffs[:4]}", field=diffs[0][1] if diffs else None, **feats))
+    died = len(a["alive"]) - len(b["alive"])
+    if died > 0:
+        counters.inc("probe.liveness_runs_with_deaths")
+    nontrivial = died > 0 and bool(rb)
+    counters.inc("ops", len(scenario["ops"]))
+    counters.inc("mode.liveness")
+    shape = kernel.short_hash(["liveness", [op[:3] for op in scenario["ops"]]])
+    return result(log, counters, verdicts, nontrivial, shape)
 
 
 def _stable_interleave(c: Chooser, creates, rels):
@@ -250,6 +411,8 @@ def run_variant(arg) -> Dict:
 
 
 def execute(scenario: Dict) -> Dict:
+    if scenario.get("mode") == "liveness":
+        return execute_liveness(scenario)
     log, counters = kernel.EventLog(), kernel.Counters()
     verdicts: List[Dict] = []
     a = procs.in_child(run_variant, (scenario, False), wall_cap=10)
